@@ -1,7 +1,10 @@
 //! fcverif: conformance harness binding the TLA+ specifications in /verif/spec to the
 //! flatcontainer crate in /repo (path dependency, rebuilt from the working tree).
+mod alloc;
 mod catalogue;
 mod dict;
+mod drive;
+mod gen;
 mod huff;
 mod ic;
 mod interp;
@@ -10,6 +13,9 @@ mod slot;
 mod stack;
 mod util;
 mod val;
+
+#[global_allocator]
+static GLOBAL: alloc::Counting = alloc::Counting;
 
 fn arg(args: &[String], name: &str) -> Option<String> {
     args.iter().position(|a| a == name).and_then(|i| args.get(i + 1).cloned())
@@ -50,7 +56,11 @@ fn main() {
             let count = arg(&args, "--count").and_then(|x| x.parse().ok()).unwrap_or(100);
             let ty = arg(&args, "--ty").unwrap_or("u8".into());
             let out = arg(&args, "--out").expect("--out");
-            huff::cmd_gen(seed, count, &out, &ty);
+            if arg(&args, "--mode").as_deref() == Some("cmp") {
+                huff::cmd_gen_cmp(seed, count, &out, &ty);
+            } else {
+                huff::cmd_gen(seed, count, &out, &ty);
+            }
         }
         "dict-run" => {
             let file = args.get(2).expect("scenario file");
@@ -63,6 +73,22 @@ fn main() {
             let count = arg(&args, "--count").and_then(|x| x.parse().ok()).unwrap_or(100);
             let out = arg(&args, "--out").expect("--out");
             dict::cmd_gen(seed, count, &out);
+        }
+        "alloc-run" => {
+            let seed = arg(&args, "--seed").and_then(|x| x.parse().ok()).unwrap_or(1);
+            let runs = arg(&args, "--runs").and_then(|x| x.parse().ok()).unwrap_or(6);
+            let growth = arg(&args, "--growth").and_then(|x| x.parse().ok()).unwrap_or(10);
+            let out = arg(&args, "--out").expect("--out");
+            alloc::cmd_run(seed, runs, growth, &out);
+        }
+        "drive" => {
+            let seed = arg(&args, "--seed").and_then(|x| x.parse().ok()).unwrap_or(1);
+            let runs = arg(&args, "--runs").and_then(|x| x.parse().ok()).unwrap_or(4);
+            let steps = arg(&args, "--steps").and_then(|x| x.parse().ok()).unwrap_or(80);
+            let long = arg(&args, "--long").and_then(|x| x.parse().ok()).unwrap_or(2000);
+            let out = arg(&args, "--out").expect("--out");
+            let only = arg(&args, "--subjects").map(|s| s.split(',').map(|x| x.to_string()).collect());
+            drive::cmd_drive(seed, runs, steps, long, &out, only);
         }
         "catalogue" => println!("{}", serde_json::to_string_pretty(&catalogue::catalogue_json()).unwrap()),
         "profile" => println!("{}", util::profile_name()),
